@@ -102,4 +102,71 @@ void H_taggedGet(void) {
     }
 }
 #endif
+
+/* ---- C04: monotone length, header maxima sit exactly on the length boundaries ---- */
+W_REL2(w_taggedMono, uint64_t, DOM_ANY, { return a > b || varintTaggedLen(a) <= varintTaggedLen(b); })
+H_REL2(H_taggedMono, w_taggedMono, uint64_t, DOM_ANY)
+#define T_BND(m, k) (varintTaggedLen(m) == (k) && varintTaggedLen((uint64_t)(m) + 1) == (k) + 1 && varintTaggedLenQuick(m) == (k))
+W_REL0(w_taggedConstants, {
+    return T_BND(VARINT_TAGGED_MAX_1, 1) && T_BND(VARINT_TAGGED_MAX_2, 2) && T_BND(VARINT_TAGGED_MAX_3, 3) &&
+           T_BND(VARINT_TAGGED_MAX_4, 4) && T_BND(VARINT_TAGGED_MAX_5, 5) && T_BND(VARINT_TAGGED_MAX_6, 6) &&
+           T_BND(VARINT_TAGGED_MAX_7, 7) && T_BND(VARINT_TAGGED_MAX_8, 8) && varintTaggedLen(VARINT_TAGGED_MAX_9) == 9 &&
+           VARINT_TAGGED_MAX_1 == 240 && VARINT_TAGGED_MAX_2 == 2287 && VARINT_TAGGED_MAX_3 == 67823 &&
+           VARINT_TAGGED_MAX_4 == (1ULL << 24) - 1 && VARINT_TAGGED_MAX_5 == (1ULL << 32) - 1 &&
+           VARINT_TAGGED_MAX_6 == (1ULL << 40) - 1 && VARINT_TAGGED_MAX_7 == (1ULL << 48) - 1 &&
+           VARINT_TAGGED_MAX_8 == (1ULL << 56) - 1;
+})
+H_REL0(H_taggedConstants, w_taggedConstants)
+
+/* ---- C05: memcmp order of the real encodings == numeric order; also for pairs ---- */
+static inline int sgn_(int c) { return c < 0 ? -1 : c > 0 ? 1 : 0; }
+W_REL2(w_taggedOrder, uint64_t, DOM_ANY, {
+    uint8_t ea[9], eb[9];
+    varintWidth la = varintTaggedPut64(ea, a), lb = varintTaggedPut64(eb, b);
+    varintWidth m = la < lb ? la : lb;
+    int c = memcmp(ea, eb, m);            /* prefix-free: the shared prefix already decides unless equal */
+    if (c == 0) c = (int)la - (int)lb;
+    int want = a < b ? -1 : a > b ? 1 : 0;
+    bool eq_ok = a != b || (la == lb && memcmp(ea, eb, la) == 0);
+    /* prefix-freeness: the first byte alone fixes the length */
+    bool pf = varintTaggedGetLen(ea) == la && varintTaggedGetLen(eb) == lb;
+    return sgn_(c) == want && eq_ok && pf && (c != 0 || a == b);
+})
+H_REL2(H_taggedOrder, w_taggedOrder, uint64_t, DOM_ANY)
+
+/* composite keys: (a1,a2) vs (b1,b2) as concatenated encodings under one memcmp over the shorter key */
+#ifndef VERIF_NATIVE
+bool w_taggedOrderPair(uint64_t a1, uint64_t a2, uint64_t b1, uint64_t b2)
+    __CPROVER_assigns() __CPROVER_ensures(RET == true)
+#else
+bool w_taggedOrderPair(uint64_t a1, uint64_t a2, uint64_t b1, uint64_t b2)
+#endif
+{
+    uint8_t ka[18], kb[18];
+    unsigned la = varintTaggedPut64(ka, a1); la += varintTaggedPut64(ka + la, a2);
+    unsigned lb = varintTaggedPut64(kb, b1); lb += varintTaggedPut64(kb + lb, b2);
+    unsigned m = la < lb ? la : lb;
+    int c = memcmp(ka, kb, m);
+    if (c == 0) c = (int)la - (int)lb;
+    int want = a1 < b1 ? -1 : a1 > b1 ? 1 : a2 < b2 ? -1 : a2 > b2 ? 1 : 0;
+    return sgn_(c) == want;
+}
+#ifndef VERIF_NATIVE
+void H_taggedOrderPair(void) { uint64_t a1, a2, b1, b2; w_taggedOrderPair(a1, a2, b1, b2); CANARY(); }
+#else
+#ifndef IN_a1
+#define IN_a1 0
+#endif
+#ifndef IN_a2
+#define IN_a2 0
+#endif
+#ifndef IN_b1
+#define IN_b1 0
+#endif
+#ifndef IN_b2
+#define IN_b2 0
+#endif
+void H_taggedOrderPair(void) { RP_CHECK(w_taggedOrderPair(IN_a1, IN_a2, IN_b1, IN_b2) == true); }
+#endif
+
 RP_MAIN()
